@@ -144,7 +144,7 @@ def sampleCT : CT :=
         (.cons ⟨"else".toList, "else:".toList, true, none⟩ (.leaf (.stmt "__M_writer('t')".toList false []) .nil) .nil)
         .nil))
     (.cons ⟨"elif".toList, "elif y:".toList, false, none⟩ .nil .nil)
-    (.leaf (.block "z = 1".toList false) .nil)
+    (.leaf (.block "z = 1".toList false (some "'z'".toList)) .nil)
 
 example : noSilent sampleCT = true ∧ forOk true sampleCT = true ∧ ctOk true true sampleCT = true := by decide +kernel
 
@@ -193,7 +193,7 @@ theorem codegen_indentation_partial (el : Bool) (t : CT) (hok : ctOk true el t =
   simp only [printed, he] at h
   exact h
 
-example : (run PS.init (emitCT true sampleCT)).out.map (·.1) = [0, 1, 1, 1, 2, 3, 2, 3, 1, 2, 0, 1, 0] := by decide +kernel
+example : (run PS.init (emitCT true sampleCT)).out.map (·.1) = [0, 1, 1, 1, 2, 3, 2, 3, 1, 2, 0, 1, 0, 0, 0] := by decide +kernel
 
 /-! ## meaning of the generated code -/
 
